@@ -212,7 +212,16 @@ where
             Value::Boolean(b) => write!(self.w, "{}", if b.val { "true" } else { "false" })?,
             Value::Empty(_) => write!(self.w, "NULL")?,
             // TODO(jwall): We should maintain precision for floats?
-            Value::Float(f) => write!(self.w, "{}", f.val)?,
+            Value::Float(f) => {
+                // A float with a zero fraction displays without a decimal
+                // point which would read back as an integer.
+                let rendered = format!("{}", f.val);
+                if rendered.contains('.') {
+                    write!(self.w, "{}", rendered)?
+                } else {
+                    write!(self.w, "{}.0", rendered)?
+                }
+            }
             Value::Int(i) => write!(self.w, "{}", i.val)?,
             Value::Str(s) => write!(self.w, "\"{}\"", Self::escape_quotes(&s.val))?,
             Value::Symbol(s) => write!(self.w, "{}", s.val)?,
